@@ -75,7 +75,7 @@ PROPS = {
             ('OTHER-GUARD', None), ('VARIANTS-EXHAUSTIVE', None), ('WIRE-1', inst_has('typename-variant')), ('EXTENSIONS', None), ('SIB-2', None),
             # the tagged enum (and its Unknown variant) exists only because validation forces __typename onto the abstract type itself
             ('TYPENAME-SAME-TYPE', None), ('TYPENAME-MATRIX', None), ('INGEST-ALL', None), ('ID-HELPER', None), ('CACHE-KEY', None)],
-    'C04': [('ONEOF-VALUE', None), ('ID-INDEX', None), ('TYPES-3', None), ('ENUM-SHAPE', None), ('ENUM-ZIP', None), ('GRAMMAR', None), ('WIRE-1', inst_has('ResolvedVariable', 'StoredInputType', 'enum-value', 'floor/variable', 'floor/input', 'floor/oneof')),
+    'C04': [('ENUM-ORDER', None), ('ATTR-SCAN', None), ('QUALIFIERS-FIXED', None), ('ONEOF-VALUE', None), ('ID-INDEX', None), ('TYPES-3', None), ('ENUM-SHAPE', None), ('ENUM-ZIP', None), ('GRAMMAR', None), ('WIRE-1', inst_has('ResolvedVariable', 'StoredInputType', 'enum-value', 'floor/variable', 'floor/input', 'floor/oneof')),
             ('WIRE-2', inst_has('ResolvedVariable', 'StoredInputType')),
             # response fields also carry the attribute, but no given property constrains it there (C01 allows null-vs-absent)
             ('SKIP-NONE', inst_has('ResolvedVariable', 'StoredInputType', 'floor')), ('ONEOF-SHAPE', None),
@@ -87,20 +87,20 @@ PROPS = {
     'C07': [('ONEOF-VALUE', None), ('STORE-TOTAL', None), ('VARIANTS-EXHAUSTIVE', None), ('CACHE-KEY', None), ('SCALAR-BUILTIN', None), ('SIB-1', None), ('SIB-2', None), ('SIB-3', None), ('TYPES-3', None), ('JSON-SHAPES', None), ('EXT-DISPATCH', None),
             ('ROOTS-AGREE', None), ('EXTENSIONS', None), ('ID-ORDER', None), ('INGEST-ALL', None), ('ENUM-VALUES', None)],
     'C08': [('STATE-INVENTORY', None), ('CACHE-ACCESS', None), ('CACHE-KEY', None), ('LOCK-DISCIPLINE', None), ('NO-AMBIENT', None), ('ORDERED', None)],
-    'C09': [('EXTERN-FILTER', None), ('ATTR-PLUMB', inst_has('/independent')), ('SCAN-GUARD', None), ('DERIVE-KEEP', None), ('WIRE-1', inst_has('typename-variant', 'OPERATION_NAME')), ('BODY-CONST', None), ('NORM-ID', None), ('GRAMMAR', None), ('OPT-1', None), ('OPT-2', None), ('DERIVE-ONLY', None)],
-    'C10': [('KW-TABLE', None), ('STORE-TOTAL', inst_has('stored_enums', 'floor')), ('CACHE-KEY', None), ('REP-FRESH', None), ('ENUM-VALUES', None), ('GRAMMAR', None), ('ENUM-SHAPE', None), ('ENUM-OPEN', None), ('ENUM-ZIP', None), ('WIRE-1', inst_has('enum-value')),
+    'C09': [('ENUM-ORDER', None), ('EXTERN-FILTER', None), ('ATTR-PLUMB', inst_has('/independent')), ('SCAN-GUARD', None), ('DERIVE-KEEP', None), ('WIRE-1', inst_has('typename-variant', 'OPERATION_NAME')), ('BODY-CONST', None), ('NORM-ID', None), ('GRAMMAR', None), ('OPT-1', None), ('OPT-2', None), ('DERIVE-ONLY', None)],
+    'C10': [('ENUM-ORDER', None), ('KW-TABLE', None), ('STORE-TOTAL', inst_has('stored_enums', 'floor')), ('CACHE-KEY', None), ('REP-FRESH', None), ('ENUM-VALUES', None), ('GRAMMAR', None), ('ENUM-SHAPE', None), ('ENUM-OPEN', None), ('ENUM-ZIP', None), ('WIRE-1', inst_has('enum-value')),
             ('OPT-1', inst_has('enum-value')), ('DERIVE-FILTER', None)],
     'C11': [('DEFAULT-LITERAL', inst_has('/variant')), ('SEL-TOTAL', None), ('ALIAS-KEY', None), ('GRAMMAR', None), ('KW-TABLE', None), ('IDENT-1', None), ('IDENT-2', None), ('WIRE-1', inst_has('field[', 'variant[', 'enum-value', 'floor/')),
             ('WIRE-2', None)],
     'C12': [('SPREAD-BOXED', None), ('SPREAD-LOOKUP', None), ('SET-SCOPE', None), ('SKIP-NONE', inst_has('StoredInputType', 'ResolvedVariable')), ('VISITED-DISCIPLINE', None), ('REACH-KINDS', None), ('GRAMMAR', None), ('BOX-SITES', None), ('BOX-INVISIBLE', None), ('REACH-INPUT', None), ('REACH-FRAGMENT', None),
             ('REC-GUARD', inst_has('contains_type_without_indirection', 'contains_fragment', 'fragment_is_recursive', 'input_is_recursive'))],
-    'C13': [('ONEOF-VALUE', None), ('NAME-AGREE', None), ('STORE-TOTAL', inst_has('stored_fields', 'floor')), ('CACHE-KEY', None), ('SCALAR-BUILTIN', None), ('GRAMMAR', None), ('TYPES-1', None), ('TYPES-2', None), ('TYPES-3', None), ('TYPES-4', None), ('TYPES-5', None)],
+    'C13': [('QUALIFIERS-FIXED', None), ('ONEOF-VALUE', None), ('NAME-AGREE', None), ('STORE-TOTAL', inst_has('stored_fields', 'floor')), ('CACHE-KEY', None), ('SCALAR-BUILTIN', None), ('GRAMMAR', None), ('TYPES-1', None), ('TYPES-2', None), ('TYPES-3', None), ('TYPES-4', None), ('TYPES-5', None)],
     'C14': [('ATTR-PLUMB', inst_has('/independent')), ('RENDER-ALL', None), ('SCAN-GUARD', None), ('GRAMMAR', None), ('DEPR-TABLE', None), ('DEPR-NOTE', None), ('DEPR-ORIGIN', None), ('DEPR-DEFAULT', None), ('SIB-3', None),
             ('ATTR-PRECISION', inst_has('deny_unknown', 'struct/'))],
     'C15': [('FMT-SELF', inst_has('graphql_client::Error', 'PathFragment', 'floor')), ('ENV-ACCEPT', None), ('ENV-ROUNDTRIP', None), ('DISPLAY-FORMAT', None), ('DISPLAY-TOTAL', None)],
     'C16': [('TYPES-3', None), ('ATTR-PRECISION', inst_has('default', 'deserialize_with')), ('NORM-ID', None), ('GRAMMAR', None), ('ID-SHAPE', None), ('ID-ATTACH', None), ('ID-TYPING', None), ('ID-ABSENT', None), ('ID-HELPER', None)],
     'C17': [('SPREAD-LOOKUP', None), ('FMT-SELF', None), ('SET-SCOPE', None), ('VISITED-DISCIPLINE', None), ('DOUBLE-DESCENT', None), ('REC-GUARD', None), ('LOOP-PROGRESS', None), ('NO-ABORT', None), ('PIPE-DRAIN', None)],
-    'C18': [('DERIVE-SPLIT', None), ('SWAPPED-ARGS', None), ('DERIVE-KEEP', None), ('DEPR-DEFAULT', None), ('SCAN-GUARD', None), ('VALUE-PARSE', None), ('ATTR-PLUMB', None), ('ATTR-DEFAULTS', None), ('ATTR-PATHS', None), ('ATTR-MODE', None)],
+    'C18': [('ATTR-SCAN', None), ('DERIVE-SPLIT', None), ('SWAPPED-ARGS', None), ('DERIVE-KEEP', None), ('DEPR-DEFAULT', None), ('SCAN-GUARD', None), ('VALUE-PARSE', None), ('ATTR-PLUMB', None), ('ATTR-DEFAULTS', None), ('ATTR-PATHS', None), ('ATTR-MODE', None)],
     'C19': [('SWAPPED-ARGS', None), ('BODY-STRUCT', None), ('DERIVE-KEEP', None), ('PIPE-DRAIN', None), ('FLAG-PLUMB', None), ('OUT-CONTENT', None), ('OUT-PATH', None), ('NO-WRITE-ON-ERROR', None), ('ONE-ENTRY', None),
             ('ERR-PROPAGATED', inst_has('generate::'))],
     'C20': [('SWAPPED-ARGS', None), ('REQ-BUILD', None), ('DOC-PAIRING', None), ('DOC-TABLE', None), ('DOC-CONTENT', None), ('STATUS', None), ('OUT-AFTER-SUCCESS', None),
